@@ -24,8 +24,13 @@ fn main() {
             }
         }
         Some("wrappers") => {
+            // wrappers <programs per family> <shard> <nshards>
             let _orig = vx::common::mute_stderr();
-            println!("{}", vx::wrappers::run());
+            if std::env::var("VX_NO_STACK_CACHE").is_err() {
+                stackcache::enable();
+            }
+            let n = |i: usize, d: usize| args.get(i).and_then(|a| a.parse::<usize>().ok()).unwrap_or(d);
+            println!("{}", vx::wrappers::run(n(2, 3), n(3, 0), n(4, 1).max(1)));
         }
         Some("atomic-diff") => {
             let _orig = vx::common::mute_stderr();
